@@ -145,6 +145,8 @@ class StrategySym:
                 return False
         if repr(b) < repr(a):
             a, b = b, a
+        if self.mode == 'reld':
+            return not rt.decide(('Rd', rt.D(down), a, b))
         return not rt.decide(('R', a, b))
 
     def get_input_list(self, node_idx, dag, jobs):
